@@ -1128,6 +1128,11 @@ func runC11(cfg *runCfg) error {
 		return err
 	}
 	crashes := 0
+	// A scenario that hangs costs 10-20 s of limits. Once several have hung the verdict is settled
+	// (each one is a V_ entry): the remaining scenarios are skipped so that a broken tree is reported
+	// in minutes, not in a quarter of an hour.
+	const maxHung = 6
+	hung, skipped := 0, 0
 	exec1 := func(sp c11Spec) (c11Obs, error) {
 		o, ok := child.run(sp)
 		if !ok {
@@ -1140,6 +1145,15 @@ func runC11(cfg *runCfg) error {
 			if e != nil {
 				return o, e
 			}
+		}
+		isHung := o.Res == "stuck" || o.AuxStuck != "" || len(o.Leak) > 0
+		for _, x := range o.All {
+			if x.Res == "stuck" {
+				isHung = true
+			}
+		}
+		if isHung {
+			hung++
 		}
 		return o, nil
 	}
@@ -1170,6 +1184,10 @@ func runC11(cfg *runCfg) error {
 		order := r.Perm(len(specs))
 		for _, i := range order {
 			sp := specs[i]
+			if hung >= maxHung {
+				skipped++
+				continue
+			}
 			o, err := exec1(sp)
 			if err != nil {
 				return err
@@ -1206,6 +1224,10 @@ func runC11(cfg *runCfg) error {
 		for j := 0; j < n; j++ {
 			sp.Calls = append(sp.Calls, kinds[r.Intn(len(kinds))])
 		}
+		if hung >= maxHung {
+			skipped++
+			continue
+		}
 		o, err := exec1(sp)
 		if err != nil {
 			return err
@@ -1241,6 +1263,10 @@ func runC11(cfg *runCfg) error {
 					continue
 				}
 				sp := c11Spec{Fam: "reconn", Phase: p, Cause: z}
+				if hung >= maxHung {
+					skipped++
+					continue
+				}
 				o, err := exec1(sp)
 				if err != nil {
 					return err
@@ -1276,9 +1302,11 @@ func runC11(cfg *runCfg) error {
 	m.Distribution["multi_scenarios"] = nMulti
 	m.Distribution["reconn_scenarios"] = len(rcCases)
 	m.Distribution["child_crashes"] = crashes
+	m.Distribution["scenarios_hung"] = hung
+	m.Distribution["scenarios_skipped_after_hangs"] = skipped
 	m.Evaluations = len(cellCases) + len(multiCases) + len(rcCases)
 	m.DistinctNontrivial = nontrivial
-	m.Exhaustive = true
+	m.Exhaustive = skipped == 0
 	m.Rule = fmt.Sprintf("the whole matrix of Calls.v (%d cells: 9 calls x {waiting for the connect lock, before the write, parked in the 1st select, parked in the 2nd select} x {cancel, deadline, Close, Disconnect, peer close, malformed packet}) executed %d time(s) on a real BaseClient over an in-memory transport whose scripted peer withholds exactly the awaited answer (parked = request seen on the wire); %d scenarios with 2-6 random calls parked on one connection and one connection end; %d scenarios of the reconnecting client (Connect with failing/hanging dials or CONNACK withheld + cancel/deadline; Disconnect in six phases). distinct_nontrivial = scenarios in which a call is really blocked when the cause strikes (everything except the 'before the write' cells)", len(specs), rounds, nMulti, len(rcCases))
 	if err := cf.write(cfg.outDir); err != nil {
 		return err
